@@ -274,7 +274,8 @@ pub enum ScanItem {
 
 struct StorageResolver<'a, B, OC, SC, L> {
     storage: &'a Storage<B, OC, SC, L>,
-    chain: Mutex<Vec<PlainRef>>,
+    // loads in progress, per thread: a resolver may be shared between threads
+    chain: Mutex<Vec<(std::thread::ThreadId, PlainRef)>>,
 }
 impl<'a, B, OC, SC, L> StorageResolver<'a, B, OC, SC, L> {
     pub fn new(storage: &'a Storage<B, OC, SC, L>) -> Self {
@@ -310,17 +311,21 @@ where
         let key = r.get_inner();
         self.storage.log.log_get(key);
         
+        let entry = (std::thread::current().id(), key);
         {
             debug!("get {key:?} as {}", std::any::type_name::<T>());
             let mut chain = self.chain.lock().unwrap();
-            if chain.contains(&key) {
+            if chain.contains(&entry) {
                 bail!("Recursive reference");
             }
-            chain.push(key);
+            chain.push(entry);
         }
         let _defer = Defer(|| {
             let mut chain = self.chain.lock().unwrap();
-            assert_eq!(chain.pop(), Some(key));
+            // other threads may have pushed in between: remove this thread's own entry
+            if let Some(i) = chain.iter().rposition(|e| *e == entry) {
+                chain.remove(i);
+            }
         });
         
         let res = self.storage.cache.get_or_compute(key, || {
